@@ -10,20 +10,23 @@ import numpy as np
 import pandas as pd
 
 from harness import gen
-from harness.common import drv, errclass
+from harness.common import drv, errclass, impl as cooler_call
 
 PID = "C14"
 THEOREMS = ["processSlice_spec", "processScalar_spec", "slice_rows", "tableGet_part", "selector_slice_rows",
             "selector_scalar_row", "selector_slice_labels", "column_selection_commutes", "column_selection_commutes_one",
             "annotate_correct", "annotateSpec_ok", "annotate_selector_correct", "annotate_forms_agree",
             "selector_slice_rows_wide", "annotate_empty", "pixels_join_slice", "chrom_decode_agree", "chrom_decode_agree_frames",
-            "legacy_substring_rule_violates"]
+            "legacy_substring_rule_violates", "categorical_roundtrip", "cell_categorical", "fromCode_missing",
+            "missing_label_not_category"]
 LEVELS = {"select": "top", "commutes": "top", "annotate": "top", "chrom_decode": "top",
           "process_slice": "unit", "sequence": "top"}
 DESCRIBE = {
     "select": "Cooler.chroms()/bins()/pixels(join)[cols][key] for every in-domain row key vs Lean `Selector.getRows` "
               "(= L0 `(whole.project cols).part a b`, theorems slice_rows / selector_slice_rows / column_selection_commutes): "
-              "values, column names, index labels",
+              "values, column names, index labels; row keys also spelled with numpy integers; `sel.fetch(region)` for every "
+              "whole chromosome and (default columns, stores with extra columns) every bin-aligned part of one vs `getRows` on the stored row range of the region; tables "
+              "holding extra columns of every kind (theorems categorical_roundtrip / cell_categorical / fromCode_missing)",
     "commutes": "sel[cols][key] vs Lean `Frame.project` applied to the implementation's own sel[key]",
     "annotate": "cooler.annotate(pixels, bins, replace) with bins as whole frame, selector and every sufficient contiguous "
                 "part vs Lean `annotate` (= L0 `annotateSpec`, theorems annotate_correct / annotate_selector_correct / "
@@ -45,7 +48,17 @@ RULE = ("stores: every bins-per-chromosome layout with 1-3 chromosomes and n <= 
         "ids (every part at all for an empty pixel list); pixel frames carry an int64/int32/uint Index, pandas' default "
         "RangeIndex, or the RangeIndex of a positional slice / reversal / stride (`df.iloc[a:b]`, `[::-1]`, `[::2]`) and the "
         "result's INDEX is compared; call sequences read-rename-read and read-overwrite-read on one path in one process for "
-        "enum- and integer-encoded chromosome columns; non-trivial = table with >= 2 rows / >= 1 pixel; distinct by canonical JSON")
+        "enum- and integer-encoded chromosome columns; 5 (quick) / 13 (thorough) further stores, n <= 5, whose chroms, bins AND "
+        "pixels tables each hold a categorical column (walking through: ordered or not, categories in non-alphabetical order, "
+        "categories that never occur, missing entries = stored code -1, nothing labelled at all, > 127 categories = int16 codes; "
+        "in bins once named `b_chromstate`) and three plain columns walking through int8..int64 / uint8..uint64 at the limits of "
+        "the type, float32/float64 with NaN and -0.0, bool, fixed-length bytes (with empty strings) and variable-length strings, "
+        "so that every kind occurs in every table; categorical and numeric columns are written by cooler (`create_cooler`, "
+        "`cooler.core.put`), string columns with h5py; on these stores: default / every extra column alone / all columns / "
+        "reordered / mixed lists / chained column keys with all or 24 sampled row keys plus all scalars, fetch, join=True, "
+        "commutes, integer-encoded chromosomes, the call sequences, and annotate with pixel frames that carry the extra pixel "
+        "columns and bin selectors restricted to extra columns; non-trivial = table with >= 2 rows / >= 1 pixel; distinct by "
+        "canonical JSON")
 EXHAUSTIVE = {"quick": True, "thorough": True}
 TRUSTED = ["h5py: `dset[lo:hi]` has Python slice semantics; `grp.keys()` order; enum header read with check_dtype",
            "pandas: `df.loc[a:b]` on an increasing integer index = positions searchsorted(a,'left')..searchsorted(b,'right'); "
@@ -55,6 +68,9 @@ TRUSTED = ["h5py: `dset[lo:hi]` has Python slice semantics; `grp.keys()` order; 
 ASSUMPTIONS = ["row keys: slice bounds None or >= -n (bounds beyond the end are clipped as Python slices are), not reversed "
                "after clipping, step None/1; scalars in [-n, n)",
                "column keys: non-empty lists of existing, distinct names, or one existing name",
+               "fetch: the region is a whole chromosome or bin-aligned; which rows a region denotes is C04 (the stored "
+               "chrom_offset / bin1_offset give the row range handed to the model)",
+               "enum columns: every stored code is -1 (missing) or the position of a member of the header",
                "annotate: pixel frame has integer bin1_id and bin2_id columns (signed, or unsigned below 64 bits); the bin "
                "frame is a contiguous part of the bin table labelled by bin id and contains every referenced bin",
                "info nbins/nchroms/nnz equal the table lengths (C02)"]
@@ -96,6 +112,101 @@ def _chromname(spec, c):
     return gen.chromname(c) if "prefix" not in spec else f"{spec['prefix']}{c}"
 
 
+# ---- extra columns of every kind a table can hold ---------------------------------------------
+# a column description: {"name", "kind", "values" (one per row; None = missing / NaN), and for kind "cat" the
+# "cats" (categories in order, possibly some that never occur) and "ordered"}
+INT_KINDS = ["int8", "int16", "int32", "int64", "uint8", "uint16", "uint32", "uint64"]
+FLOAT_KINDS = ["float32", "float64"]
+PLAIN_KINDS = INT_KINDS + FLOAT_KINDS + ["bool", "bytes", "vstr"]
+# float values exactly representable in float32 (so that a cell has ONE shortest repr whatever its width)
+FLOATS = [None, 0.5, -1.25, 2.0, -0.0, 1048576.5, float(2 ** 100), 0.0009765625]
+WORDS = ["p", "qq", "rrr", "", "t u", "Zz9", "chrom", "x" * 11]
+CAT_POOLS = [["A", "B", "C"], ["hi", "lo"], ["z", "y", "x", "w"], ["only"], ["B", "A", "chr1", "NA", "nan"]]
+
+
+def _int_values(kind, m, rng):
+    info = np.iinfo(kind)
+    pool = [int(info.min), int(info.max), 0, 1, 2, int(info.max) - 1, int(info.max) // 2 + 1]
+    return [rng.choice(pool) for _ in range(m)]
+
+
+def make_column(rng, name, kind, m, variant=0):
+    """one column of `m` rows; `variant` walks through the sub-kinds of a categorical"""
+    if kind == "cat":
+        if variant % 6 == 5:
+            cats = [f"k{q:03d}" for q in range(130)]        # more than 127 categories: int16 codes
+        else:
+            cats = list(CAT_POOLS[variant % len(CAT_POOLS)])
+        ordered = bool(variant % 2)
+        used = cats if variant % 3 == 0 or len(cats) == 1 else cats[1:] if variant % 3 == 1 else cats[:-1]
+        used = used[-3:] if len(used) > 4 else used           # categories that never occur
+        vals = [rng.choice(used) for _ in range(m)]
+        if variant % 4 != 3:                                   # missing entries (stored as code -1)
+            for _ in range(max(1, m // 3) if m else 0):
+                vals[rng.randrange(m)] = None
+        if variant % 7 == 6:
+            vals = [None] * m                                  # nothing labelled at all
+        return {"name": name, "kind": "cat", "values": vals, "cats": cats, "ordered": ordered}
+    if kind in INT_KINDS:
+        return {"name": name, "kind": kind, "values": _int_values(kind, m, rng)}
+    if kind in FLOAT_KINDS:
+        return {"name": name, "kind": kind, "values": [rng.choice(FLOATS) for _ in range(m)]}
+    if kind == "bool":
+        return {"name": name, "kind": kind, "values": [rng.random() < 0.5 for _ in range(m)]}
+    return {"name": name, "kind": kind, "values": [rng.choice(WORDS) for _ in range(m)]}
+
+
+def col_array(col, values=None, frame=False):
+    """the column as handed to cooler (`frame`: as it sits in a pandas frame the user holds)"""
+    vals = col["values"] if values is None else values
+    kind = col["kind"]
+    if kind == "cat":
+        return pd.Categorical(vals, categories=col["cats"], ordered=col["ordered"])
+    if kind in INT_KINDS:
+        return np.array(vals, dtype=kind)
+    if kind in FLOAT_KINDS:
+        return np.array([np.nan if v is None else v for v in vals], dtype=kind)
+    if kind == "bool":
+        return np.array(vals, dtype=bool)
+    if frame:
+        return np.array(vals, dtype=object)
+    return np.array([v.encode() for v in vals], dtype="S") if kind == "bytes" else list(vals)
+
+
+def extras(spec, table):
+    return spec.get("extras", {}).get(table, [])
+
+
+BASE_COLS = {"chroms": ["name", "length"],
+             "bins": ["chrom", "start", "end", "mychrom", "weight"],
+             "pixels": ["bin1_id", "bin2_id", "count", "extra"]}
+
+
+def table_cols(spec, table):
+    return BASE_COLS[table] + [c["name"] for c in extras(spec, table)]
+
+
+def make_rich_spec(rng, sizes, nnz, rot):
+    """a store whose three tables carry extra columns: in every table one categorical (sub-kind chosen by `rot`:
+    ordered or not, with categories that never occur, with missing entries, all missing, int16 codes) and three of
+    the plain kinds, walking through `PLAIN_KINDS` so that a handful of stores holds every kind in every table"""
+    spec = make_spec(rng, sizes, nnz)
+    rows = {"chroms": len(sizes), "bins": sum(sizes), "pixels": len(spec["pixels"])}
+    ex = {}
+    for ti, table in enumerate(("chroms", "bins", "pixels")):
+        pre = table[0] + "_"
+        cols = [make_column(rng, (pre + "chromstate") if table == "bins" and rot % 2 else pre + "cat", "cat",
+                            rows[table], variant=rot + 2 * ti)]
+        for q in range(3):
+            kind = PLAIN_KINDS[(3 * rot + q + 4 * ti) % len(PLAIN_KINDS)]
+            cols.append(make_column(rng, pre + kind, kind, rows[table]))
+        if rot % 3 == 2:
+            cols.append(make_column(rng, pre + "cat2", "cat", rows[table], variant=rot + ti + 3))
+        ex[table] = cols
+    spec["extras"] = ex
+    return spec
+
+
 def _bins_df(spec):
     chrom, start, end = [], [], []
     for c, k in enumerate(spec["sizes"]):
@@ -104,20 +215,31 @@ def _bins_df(spec):
             start.append(10 * b)
             end.append(10 * b + (10 if b < k - 1 else 7))
     names = [_chromname(spec, c) for c in range(len(spec["sizes"]))]
-    return pd.DataFrame({
+    df = pd.DataFrame({
         "chrom": pd.Categorical(chrom, categories=names, ordered=True),
         "start": np.array(start, dtype=np.int64), "end": np.array(end, dtype=np.int64),
         "weight": np.array([np.nan if w is None else w for w in spec["weight"]], dtype=np.float64),
         "mychrom": np.array(spec["mychrom"], dtype=np.int32)})
+    for col in extras(spec, "bins"):
+        if col["kind"] not in RAW_KINDS:
+            df[col["name"]] = col_array(col)
+    return df
+
+
+RAW_KINDS = ("bytes", "vstr")     # written with h5py directly (fixed-length / variable-length strings)
 
 
 def _pixels_df(spec):
     px = spec["pixels"]
-    return pd.DataFrame({
+    df = pd.DataFrame({
         "bin1_id": np.array([p[0] for p in px], dtype=np.int64),
         "bin2_id": np.array([p[1] for p in px], dtype=np.int64),
         "count": np.array([p[2] for p in px], dtype=np.int32),
         "extra": np.array([np.nan if p[3] is None else p[3] for p in px], dtype=np.float64)})
+    for col in extras(spec, "pixels"):
+        if col["kind"] not in RAW_KINDS and col["kind"] != "cat":
+            df[col["name"]] = col_array(col)
+    return df
 
 
 _CACHE = {}   # canonical spec -> path (per worker process)
@@ -144,13 +266,27 @@ def store_path(spec, intchrom=False):
 
 
 def write_store(p, spec, intchrom):
-    cooler.create_cooler(p, _bins_df(spec), _pixels_df(spec), columns=["count", "extra"],
-                         dtypes={"extra": np.float64}, ordered=True)
-    if intchrom:
+    pix = _pixels_df(spec)
+    cols = [c for c in pix.columns if c not in ("bin1_id", "bin2_id")]
+    dtypes = {c: pix[c].dtype for c in cols if c != "count"}
+    cooler.create_cooler(p, _bins_df(spec), pix, columns=cols, dtypes=dtypes, ordered=True)
+    if intchrom or "extras" in spec:
         with h5py.File(p, "r+") as f:
-            codes = f["bins/chrom"][:]
-            del f["bins/chrom"]
-            f["bins"].create_dataset("chrom", data=np.asarray(codes, dtype=np.int32))
+            if intchrom:
+                codes = f["bins/chrom"][:]
+                del f["bins/chrom"]
+                f["bins"].create_dataset("chrom", data=np.asarray(codes, dtype=np.int32))
+            for table in ("chroms", "bins", "pixels"):
+                for col in extras(spec, table):
+                    if col["name"] in f[table]:
+                        continue
+                    if col["kind"] == "vstr":
+                        f[table].create_dataset(col["name"], data=col_array(col), dtype=h5py.string_dtype())
+                    elif col["kind"] == "bytes":
+                        f[table].create_dataset(col["name"], data=col_array(col))
+                    else:
+                        # the library's own column writer (categoricals become HDF5 enums, missing = -1)
+                        cooler.core.put(f[table], pd.DataFrame({col["name"]: col_array(col)}))
 
 
 # ----------------------------------------------------------------------------------------------
@@ -217,7 +353,37 @@ def read_store(path):
         out = {t: storedj(f[t]) for t in ("chroms", "bins", "pixels")}
         out["names"] = [x.decode() if isinstance(x, bytes) else str(x) for x in f["chroms/name"][:].tolist()]
         out["n"] = {"chroms": int(f.attrs["nchroms"]), "bins": int(f.attrs["nbins"]), "pixels": int(f.attrs["nnz"])}
+        out["chrom_offset"] = [int(x) for x in f["indexes/chrom_offset"][:]]
+        out["bin1_offset"] = [int(x) for x in f["indexes/bin1_offset"][:]]
     return out
+
+
+def fetch_keys(spec, st, table, parts=True):
+    """`sel.fetch(region)` for every whole chromosome (by name) and, with `parts`, every bin-aligned part of one (as a
+    `(name, start, end)` tuple or a `name:start-end` string): the region and the stored row range `[lo, hi)` it denotes
+    (bins: the bins of the region; pixels: the rows whose first bin is one of them, from the stored `bin1_offset`)"""
+    out = []
+    for c, k in enumerate(spec["sizes"]):
+        name, off = st["names"][c], st["chrom_offset"][c]
+        length = 10 * (k - 1) + 7
+        regions = [(name, 0, k)]
+        if parts:
+            regions += [((name, 10 * a, 10 * b if b < k else length) if (a + b) % 2 else
+                         f"{name}:{10 * a}-{10 * b if b < k else length}", a, b)
+                        for a in range(k) for b in range(a + 1, k + 1) if (a, b) != (0, k)]
+        for region, a, b in regions:
+            lo, hi = off + a, off + b
+            if table == "pixels":
+                lo, hi = st["bin1_offset"][lo], st["bin1_offset"][hi]
+            out.append([list(region) if isinstance(region, tuple) else region, lo, hi])
+    return out
+
+
+def npkey(key):
+    """the same row key spelled with numpy integers"""
+    if key[0] == "k":
+        return np.int64(key[1])
+    return slice(*[None if b is None else np.int64(b) for b in key[1:3]])
 
 
 def keyj(key):
@@ -275,7 +441,11 @@ def _select(case, intchrom=False):
     st = read_store(path)
     n = st["n"][table]
     keys = case.get("keys") or all_keys(n)
-    args = {"src": table, "table": st[table], "nmax": n, "colkeys": colkeys, "keys": [keyj(k) for k in keys]}
+    # parts of chromosomes with the default columns and on the stores with extra columns; whole chromosomes always
+    fkeys = fetch_keys(spec, st, table, parts=not colkeys or "extras" in spec) \
+        if table != "chroms" and case.get("fetch", True) else []
+    args = {"src": table, "table": st[table], "nmax": n, "colkeys": colkeys,
+            "keys": [keyj(k) for k in keys] + [{"slice": [lo, hi]} for _, lo, hi in fkeys]}
     if table == "bins":
         args["names"] = st["names"]
     if table == "pixels":
@@ -286,15 +456,15 @@ def _select(case, intchrom=False):
     handle = None
     if case.get("via") == "handle":
         handle = h5py.File(path, "r")
-        c = cooler.Cooler(handle)
+        c = cooler_call(cooler.Cooler, handle)
     else:
-        c = cooler.Cooler(path)
+        c = cooler_call(cooler.Cooler, path)
     try:
         sel = _apply_colkeys(_selector(c, table, join), colkeys)
         last = colkeys[-1] if colkeys else None
         degenerate = isinstance(last, list) and len(last) == 0
         check_spec = not degenerate and (not join or not colkeys)
-        bad, stats = [], {"in_domain": 0, "out_of_domain": 0, "ood_model_agrees": 0}
+        bad, stats = [], {"in_domain": 0, "out_of_domain": 0, "ood_model_agrees": 0, "fetch": 0}
         for key, a in zip(keys, ans):
             impl = guarded_frame(lambda: sel[pykey(key)])
             if not a["in_domain"] or degenerate:
@@ -314,6 +484,21 @@ def _select(case, intchrom=False):
                 t2 = guarded_frame(lambda: sel[(pykey(key), pykey(key))])
                 if not same_result(t1, a["tuple1"]) or not same_result(t2, a["tuple2"]):
                     bad.append({"key": key, "tuple_forms": True, "impl": [t1, t2], "model": [a["tuple1"], a["tuple2"]]})
+            if stats["in_domain"] % 11 == 3:
+                # the same key spelled with numpy integers
+                t3 = guarded_frame(lambda: sel[npkey(key)])
+                if not same_result(t3, a["model"]):
+                    bad.append({"key": key, "numpy_integers": True, "impl": t3, "model": a["model"]})
+        if not degenerate:
+            for (region, lo, hi), a in zip(fkeys, ans[len(keys):]):
+                # `sel.fetch(region)`: the rows of the region's extent
+                arg = tuple(region) if isinstance(region, list) else region
+                impl = guarded_frame(lambda: sel.fetch(arg))
+                stats["fetch"] += 1
+                if check_spec and a["model"] != a["spec"]:
+                    raise AssertionError(f"L1 != L0 on {table} {colkeys} fetch {region}: {a['model']} vs {a['spec']}")
+                if not same_result(impl, a["model"]):
+                    bad.append({"key": ["fetch", region, lo, hi], "impl": impl, "model": a["model"]})
     finally:
         if handle is not None:
             handle.close()
@@ -331,8 +516,8 @@ def _chrom_decode(case):
     spec, colkeys = case["store"], case["colkeys"]
     n = sum(spec["sizes"])
     keys = case.get("keys") or all_keys(n)
-    ce = cooler.Cooler(store_path(spec, intchrom=False))
-    ci = cooler.Cooler(store_path(spec, intchrom=True))
+    ce = cooler_call(cooler.Cooler, store_path(spec, intchrom=False))
+    ci = cooler_call(cooler.Cooler, store_path(spec, intchrom=True))
     se = _apply_colkeys(ce.bins(), colkeys)
     si = _apply_colkeys(ci.bins(), colkeys)
     bad = []
@@ -354,7 +539,7 @@ def _chrom_decode(case):
 def _commutes(case):
     spec, table, cols = case["store"], case["table"], case["cols"]
     path = store_path(spec)
-    c = cooler.Cooler(path)
+    c = cooler_call(cooler.Cooler, path)
     n = read_store(path)["n"][table]
     keys = case.get("keys") or all_keys(n)
     base = _selector(c, table, False)
@@ -412,30 +597,29 @@ def _annotate(case):
     path = store_path(spec)
     st = read_store(path)
     n = st["n"]["bins"]
-    c = cooler.Cooler(path)
-    data = {}
-    for j, name in enumerate(pxcols):
-        col = [r[j] for r in pxrows]
-        if name in ("bin1_id", "bin2_id"):
-            data[name] = np.array(col, dtype=idtype)
-        elif name == "count":
-            data[name] = np.array(col, dtype=np.int32)
-        else:
-            data[name] = np.array([np.nan if v is None else v for v in col], dtype=np.float64)
+    c = cooler_call(cooler.Cooler, path)
+    colkinds = case.get("colkinds", {})
+
+    def build(rows):
+        data = {}
+        for j, name in enumerate(pxcols):
+            col = [r[j] for r in rows]
+            if name in ("bin1_id", "bin2_id"):
+                data[name] = np.array(col, dtype=idtype)
+            elif name == "count":
+                data[name] = np.array(col, dtype=np.int32)
+            elif name in colkinds:
+                # an extra pixel column of any kind, as it sits in the frame the user holds
+                data[name] = col_array(colkinds[name], values=col, frame=True)
+            else:
+                data[name] = np.array([np.nan if v is None else v for v in col], dtype=np.float64)
+        return data
+
+    data = build(pxrows)
     kind = case.get("index_kind", "int64")
     if kind == "iloc":
         # a positional slice / reversal / stride of a frame carrying pandas' default index
-        base = case["base_rows"]
-        bdata = {}
-        for j, name in enumerate(pxcols):
-            col = [r[j] for r in base]
-            if name in ("bin1_id", "bin2_id"):
-                bdata[name] = np.array(col, dtype=idtype)
-            elif name == "count":
-                bdata[name] = np.array(col, dtype=np.int32)
-            else:
-                bdata[name] = np.array([np.nan if v is None else v for v in col], dtype=np.float64)
-        pixels = pd.DataFrame(bdata, columns=pxcols).iloc[slice(*case["sl"])]
+        pixels = pd.DataFrame(build(case["base_rows"]), columns=pxcols).iloc[slice(*case["sl"])]
     elif kind == "range":
         pixels = pd.DataFrame(data, columns=pxcols, index=_range_index(index))
     elif kind == "default":
@@ -447,9 +631,11 @@ def _annotate(case):
     ids = [r[j] for r in pxrows for j, name in enumerate(pxcols) if name in ("bin1_id", "bin2_id")]
     forms = case.get("forms") or all_forms(n, ids)
     sel = c.bins() if fields is None else c.bins()[fields]
-    whole = sel[:]
+    whole = cooler_call(lambda: sel[:])
     pxj = {"cols": pxcols, "index": index, "series": False,
            "rows": [[cellj(v) for v in r] for r in pxrows]}
+    if framej(pixels)["rows"] != pxj["rows"]:
+        raise AssertionError(f"harness built a pixel frame with cells {framej(pixels)['rows']} instead of {pxj['rows']}")
     ans = drv().ask("C14.annotate", table=st["bins"], names=st["names"], fields=fields, pixels=pxj,
                     replace=replace, forms=forms)
     two_sided = "bin1_id" in pxcols and "bin2_id" in pxcols
@@ -527,13 +713,13 @@ def _sequence(case):
                 if not same_result(impl, a["model"]):
                     bad.append({"phase": phase, "cooler": who, "read": [table, colkeys, key], "impl": impl, "model": a["model"]})
             # annotation against the selector and against the frame materialised from it
-            pixels = c.pixels()[:]
+            pixels = cooler_call(lambda: c.pixels()[:])
             pxj = framej(pixels)
             forms = ["selector", "whole"]
             ans = drv().ask("C14.annotate", table=st["bins"], names=st["names"], fields=None, pixels=pxj,
                             replace=False, forms=forms)
             for form, a in zip(forms, ans):
-                bins = c.bins() if form == "selector" else c.bins()[:]
+                bins = c.bins() if form == "selector" else cooler_call(lambda: c.bins()[:])
                 impl = guarded_frame(lambda: cooler.annotate(pixels, bins, replace=False))
                 if nnz and a["model"] != a["spec"]:
                     raise AssertionError(f"L1 != L0 for annotate form {form}")
@@ -542,15 +728,15 @@ def _sequence(case):
 
     try:
         write_store(path, spec, intchrom)
-        c = cooler.Cooler(path)
+        c = cooler_call(cooler.Cooler, path)
         observe("before", [("first", c)])
         if mode == "rename":
-            cooler.rename_chroms(c, case["rename"])
-            observe("after rename_chroms", [("same object", c), ("fresh object", cooler.Cooler(path))])
+            cooler_call(cooler.rename_chroms, c, case["rename"])
+            observe("after rename_chroms", [("same object", c), ("fresh object", cooler_call(cooler.Cooler, path))])
         else:
             os.unlink(path)
             write_store(path, case["store2"], intchrom)
-            observe("after another cooler was written to the path", [("fresh object", cooler.Cooler(path))])
+            observe("after another cooler was written to the path", [("fresh object", cooler_call(cooler.Cooler, path))])
     finally:
         if os.path.exists(path):
             os.unlink(path)
@@ -567,13 +753,8 @@ CHECKS = {"select": _select, "commutes": _commutes, "annotate": _annotate, "chro
 # case generation
 # ----------------------------------------------------------------------------------------------
 
-TABLE_COLS = {"chroms": ["name", "length"],
-              "bins": ["chrom", "start", "end", "mychrom", "weight"],
-              "pixels": ["bin1_id", "bin2_id", "count", "extra"]}
-
-
 def colkey_variants(table, rng, full):
-    cols = TABLE_COLS[table]
+    cols = BASE_COLS[table]
     out = [[]]
     out += [[c] for c in cols]                               # single name: Series selector
     subsets = [list(s) for r in range(1, len(cols) + 1) for s in itertools.combinations(cols, r)]
@@ -589,6 +770,31 @@ def colkey_variants(table, rng, full):
     return out
 
 
+def sample_keys(n, rng, m):
+    """every scalar, the whole-table slice and `m` other row keys drawn from `all_keys(n)`"""
+    keys = all_keys(n)
+    scalars = [k for k in keys if k[0] == "k"]
+    slices = [k for k in keys if k[0] == "s" and k != ["s", None, None]]
+    return [["s", None, None]] + scalars + rng.sample(slices, min(m, len(slices)))
+
+
+def rich_colkeys(spec, table, rng):
+    """column keys of a store with extra columns: default, every extra column alone (a Series), all columns, a
+    reordered list, lists mixing standard and extra columns, chained keys; with each whether ALL row keys are read"""
+    base, ex = BASE_COLS[table], [c["name"] for c in extras(spec, table)]
+    cols = base + ex
+    out = [([], True)]
+    out += [([c], False) for c in ex]
+    out.append(([list(reversed(cols))], True))
+    for _ in range(3):
+        pick = rng.sample(ex, rng.randint(1, len(ex))) + rng.sample(base, rng.randint(0, 2))
+        rng.shuffle(pick)
+        out.append(([pick], False))
+    out.append(([base[:2], ex], False))                      # chained: the last key replaces the first
+    out.append(([ex, ex[0]], False))
+    return out
+
+
 def layouts(maxn):
     for k in (1, 2, 3):
         for sizes in itertools.product(range(1, maxn + 1), repeat=k):
@@ -596,12 +802,23 @@ def layouts(maxn):
                 yield list(sizes)
 
 
-def pixel_frames(spec, rng, thorough):
-    """(cols, rows, index, idtype, replace, fields) for the annotate check on one store"""
-    px = spec["pixels"]
+def pixel_frames(spec, rng, thorough, light=False):
+    """(cols, rows, index, idtype, replace, fields) for the annotate check on one store; the pixel frames carry the
+    store's extra pixel columns (any kind) and the bin table its extra bin columns; `light`: a thinner spread"""
+    pex, bex = extras(spec, "pixels"), [c["name"] for c in extras(spec, "bins")]
+    px = [list(p) + [c["values"][i] for c in pex] for i, p in enumerate(spec["pixels"])]
     n = sum(spec["sizes"])
-    cols = ["bin1_id", "bin2_id", "count", "extra"]
-    seqs = [list(s) for r in range(0, 4) for s in itertools.product(range(len(px)), repeat=r)]
+    cols = table_cols(spec, "pixels")
+    if pex:
+        kinds = {c["name"]: {k: v for k, v in c.items() if k not in ("values", "name")} for c in pex}
+        for fr in _pixel_frames(spec, rng, thorough, light, px, n, cols, bex, [c["name"] for c in pex]):
+            yield {**fr, "colkinds": kinds}
+    else:
+        yield from _pixel_frames(spec, rng, thorough, light, px, n, cols, bex, [])
+
+
+def _pixel_frames(spec, rng, thorough, light, px, n, cols, bex, pexn):
+    seqs = [list(s) for r in range(0, 3 if light else 4) for s in itertools.product(range(len(px)), repeat=r)]
     for q, s in enumerate(seqs):
         rows = [px[k] for k in s]
         for replace in (False, True):
@@ -613,7 +830,9 @@ def pixel_frames(spec, rng, thorough):
     M = len(base)
     slices = [[a, b, 1] for a in range(M + 1) for b in range(a, M + 1) if (a, b) != (0, M) and b - a <= 4]
     slices += [[None, None, -1], [None, None, 2], [1, None, 2], [None, None, 3], [M - 1, 0, -2], [0, M, 1]]
-    if not thorough:
+    if light:
+        slices = slices[::7] + slices[-6:]
+    elif not thorough:
         slices = slices[::3] + slices[-6:]
     for q, sl in enumerate(slices):
         rows = base[slice(*sl)]
@@ -630,7 +849,7 @@ def pixel_frames(spec, rng, thorough):
                "replace": not bool(q % 2), "index_kind": rng.choice(["int32", "int64", "uint8" if start >= 0 and step > 0 else "int64"])}
     # index labels other than 0..m-1, id dtypes, selector with a column list, reordered pixel columns
     extra = []
-    for _ in range(24 if thorough else 10):
+    for _ in range(5 if light else 24 if thorough else 10):
         m = rng.randint(1, 3)
         s = [rng.randrange(len(px)) for _ in range(m)] if px else []
         rows = [px[k] for k in s]
@@ -655,16 +874,26 @@ def pixel_frames(spec, rng, thorough):
     # arbitrary id pairs (not stored pixels, lower triangle included)
     for _ in range(6 if thorough else 3):
         m = rng.randint(1, 4)
-        rows = [[rng.randrange(n), rng.randrange(n), rng.randint(1, 9), rng.choice(EXTRAS)] for _ in range(m)]
+        if pexn:
+            rows = [[rng.randrange(n), rng.randrange(n)] + rng.choice(px)[2:] for _ in range(m)]
+        else:
+            rows = [[rng.randrange(n), rng.randrange(n), rng.randint(1, 9), rng.choice(EXTRAS)] for _ in range(m)]
         extra.append({"cols": cols, "rows": rows, "index": list(range(m)), "replace": rng.random() < 0.5})
     # bin selector restricted to a column list / pixel frame with other column orders / one id column only
-    for k, fields in enumerate((["chrom", "start", "end"], ["start", "weight"], ["weight", "chrom", "mychrom"])):
+    fieldsets = [["chrom", "start", "end"], ["start", "weight"], ["weight", "chrom", "mychrom"]]
+    if bex:
+        # the bin selector restricted to extra columns (`<col>1`, `<col>2` of every kind), alone and mixed
+        fieldsets += [[bex[0]], list(reversed(bex)) + ["chrom"], ["end"] + bex[1:3]]
+    for k, fields in enumerate(fieldsets):
         if not px:
             continue
         s = [rng.randrange(len(px)) for _ in range(rng.randint(1, 3))]
         extra.append({"cols": cols, "rows": [px[i] for i in s], "index": list(range(len(s))),
                       "replace": bool(k % 2), "fields": fields})
-    for perm in (["count", "bin2_id", "extra", "bin1_id"], ["bin1_id", "count"], ["extra", "bin2_id"]):
+    perms = [["count", "bin2_id", "extra", "bin1_id"], ["bin1_id", "count"], ["extra", "bin2_id"]]
+    if pexn:
+        perms += [list(reversed(pexn)) + ["bin2_id", "bin1_id"], ["bin1_id"] + pexn[:2]]
+    for perm in perms:
         if not px:
             continue
         s = [rng.randrange(len(px)) for _ in range(rng.randint(1, 3))]
@@ -704,7 +933,7 @@ def cases(tier, rng):
         for ck in ([], ["chrom"], [["chrom"]], [["start", "chrom"]], [["weight", "chrom", "mychrom"]], ["mychrom"], ["start"]):
             yield "chrom_decode", {"store": spec, "table": "bins", "colkeys": ck}
         for table in ("chroms", "bins", "pixels"):
-            cols = TABLE_COLS[table]
+            cols = BASE_COLS[table]
             subsets = [list(s) for r in range(1, len(cols) + 1) for s in itertools.combinations(cols, r)]
             subsets += [c for c in cols]
             if not full:
@@ -728,6 +957,44 @@ def cases(tier, rng):
             small["pixels"] = small["pixels"][: (5 if thorough else 4)]
         for fr in pixel_frames(small, rng, thorough):
             yield "annotate", {"store": small, **fr}
+    # stores whose chromosome, bin and pixel tables hold extra columns of every kind (categorical / enum: ordered or
+    # not, categories that never occur, missing entries, int16 codes; fixed- and variable-length strings; every
+    # integer width at its limits; float32/64 with NaN; bool), read through every selector entry
+    for ri in range(13 if thorough else 5):
+        k = 1 + ri % 3
+        sizes = [1] * k
+        for _ in range(rng.randint(1, 5 - k)):
+            sizes[rng.randrange(k)] += 1
+        n = sum(sizes)
+        m = min(4, n * (n + 1) // 2)
+        spec = make_rich_spec(rng, sizes, rng.randint(min(2, m), m), ri)
+        nrows = {"chroms": k, "bins": n, "pixels": len(spec["pixels"])}
+        via = "handle" if ri % 2 else "path"
+        for table in ("chroms", "bins", "pixels"):
+            ex = [c["name"] for c in extras(spec, table)]
+            for ck, allkeys in rich_colkeys(spec, table, rng):
+                case = {"store": spec, "table": table, "colkeys": ck, "via": via}
+                if not allkeys:
+                    case["keys"] = sample_keys(nrows[table], rng, 24)
+                yield "select", case
+            for cols in (ex, ex[0], [ex[-1], BASE_COLS[table][0], ex[0]], BASE_COLS[table][1:] + ex[1:2]):
+                yield "commutes", {"store": spec, "table": table, "cols": cols, "keys": sample_keys(nrows[table], rng, 24)}
+        pex = [c["name"] for c in extras(spec, "pixels")]
+        yield "select", {"store": spec, "table": "pixels", "colkeys": [], "join": True}
+        yield "select", {"store": spec, "table": "pixels", "colkeys": [list(reversed(pex)) + ["bin2_id", "bin1_id"]],
+                         "join": True, "keys": sample_keys(nrows["pixels"], rng, 24)}
+        bex = [c["name"] for c in extras(spec, "bins")]
+        for ck in ([], [bex[0]], [[bex[0], "chrom", bex[-1]]], [bex]):
+            case = {"store": spec, "table": "bins", "colkeys": ck}
+            if ck:
+                case["keys"] = sample_keys(n, rng, 24)
+            yield "chrom_decode", case
+        spec2 = dict(spec)
+        spec2["prefix"] = "other"
+        yield "sequence", {"store": spec, "intchrom": bool(ri % 2), "mode": "rename", "rename": {gen.chromname(0): "zz"}}
+        yield "sequence", {"store": spec, "intchrom": not ri % 2, "mode": "replace", "store2": spec2}
+        for fr in pixel_frames(spec, rng, thorough, light=True):
+            yield "annotate", {"store": spec, **fr}
 
 
 def nontrivial(name, case):
@@ -752,9 +1019,50 @@ def distribution(name, case):
     elif "store" in case:
         yield f"{name}.table={case['table']}"
         yield f"stores.nbins={sum(case['store']['sizes'])}"
+    if "store" in case:
+        for table in ("chroms", "bins", "pixels"):
+            for col in extras(case["store"], table):
+                sub = ""
+                if col["kind"] == "cat":
+                    sub = ("+missing" if None in col["values"] else "") + \
+                          ("+unobserved" if set(col["cats"]) - set(col["values"]) else "") + \
+                          ("+ordered" if col["ordered"] else "") + ("+int16" if len(col["cats"]) > 127 else "")
+                yield f"column.{table}.{col['kind']}{sub}"
+
+
+def _mentioned(case):
+    """column names a case refers to"""
+    out = set(case.get("cols") or []) | set(case.get("fields") or [])
+    for ck in case.get("colkeys") or []:
+        out |= {ck} if isinstance(ck, str) else set(ck)
+    if isinstance(case.get("cols"), str):
+        out.add(case["cols"])
+    return out
+
+
+def _drop_extras(case):
+    """the same case on a store with fewer extra columns (never one the case names)"""
+    spec = case["store"]
+    ex = spec.get("extras")
+    if not ex:
+        return
+    used = _mentioned(case)
+    for table in ("chroms", "bins", "pixels"):
+        if table == "pixels" and "rows" in case:
+            continue                 # the annotate case's own pixel frame carries these columns
+        keep = [c for c in ex[table] if c["name"] in used]
+        if len(keep) < len(ex[table]):
+            yield {**case, "store": {**spec, "extras": {**ex, table: keep}}}
+        for col in ex[table]:
+            if col["name"] not in used and len(ex[table]) - len(keep) > 1:
+                yield {**case, "store": {**spec, "extras": {**ex, table: [c for c in ex[table] if c is not col]}}}
 
 
 def shrink(name, case):
+    if name in ("select", "chrom_decode", "commutes", "annotate", "sequence"):
+        yield from _drop_extras(case)
+    if name in ("select", "chrom_decode") and case.get("fetch", True):
+        yield {**case, "fetch": False}
     if name in ("select", "chrom_decode", "commutes"):
         spec = case["store"]
         n = {"chroms": len(spec["sizes"]), "bins": sum(spec["sizes"]), "pixels": len(spec["pixels"])}[case["table"]]
